@@ -18,7 +18,7 @@ func main() {
 	timeout := flag.Duration("timeout", 10*time.Second, "per solver timeout")
 	jobs := flag.Int("j", 16, "parallel solver jobs")
 	verbose := flag.Bool("v", false, "list every obligation")
-	split := flag.Bool("splitret", false, "check postconditions per return statement")
+	split := flag.Bool("splitret", true, "check postconditions per return statement")
 	tier := flag.String("tier", "quick", "quick or thorough")
 	evid := flag.String("evidence", "", "evidence file to write")
 	listOnly := flag.Bool("list", false, "only list obligations")
